@@ -10,7 +10,8 @@ FC_TB = TB_COMMON + [
 FC_ASSUME = [
     "tree edges are those documented in proto_array.go: a block node hangs (fork-choice parent) from the first known node of its parent root, an empty-slot node from the node one slot before it",
     "no block has the all-zero root at slot 0 (Go's zero NodeRef is the vote store's 'no vote' sentinel); an empty-slot insertion under an unknown root or below the first slot of its root is outside the domain (the API has no result to reject it): the specification answers `any` from there on",
-    "Search without options is unconstrained (its doc comment is truncated in the source)",
+    "Search from an anchor that is not the first node of its root is unconstrained: the code answers 'transition descendants at a later slot' (a block at the anchor's own slot is excluded, its descendants are included), which no tree contract explains, and the source documents nothing for that case (see the comment of Spec.Abs.search); Search without options = the blocks without a child block (as the source comments say; the code was repaired to that in /repo commit 750a2f5)",
+    "CanonAtSlot for a slot after the head answers the head whatever withBlock says ('the closest we have', as the source comment says); at the slot of the head the requested kind is respected (repaired in /repo commit 22758ea)",
     "a root names one block: a root that was pruned is not inserted again as a new block while a latest vote still names it (the specification answers `any` from there on; the generator avoids it)",
     "OnPrune (rewritten in /repo commit 38d1471) is atomic when the sink fails: nothing is dropped, the error is returned, a repeated call reports the same nodes again (the sink must tolerate repeats); a block filling the slot of an empty-slot checkpoint node is dropped as conflicting with the checkpoint",
 ]
@@ -24,6 +25,8 @@ PROPS = {"C09": dict(
     module="Proofs.Properties.C09",
     theorems=[
         "Zrnt.Proofs.C09.inv_structure",
+        "Zrnt.Proofs.C09.no_panic",
+        "Zrnt.Proofs.C09.inv_structure_quiet",
         "Zrnt.Proofs.C09.inv_weights",
         "Zrnt.Proofs.C09.weights_are_subtree_sums",
         "Zrnt.Proofs.C09.weights_propagate",
@@ -40,7 +43,7 @@ PROPS = {"C09": dict(
     rule="operation sequences (reset-separated) run on the real Go fork choice and on the Lean model+specification; counted: head/findhead/att/block/slot/justify/pin lines that the Go side executed; distinct = distinct (position, line)",
     manifest=dict(
         level_text="Lean theorems about a code-shaped model of the proto-array fork choice (invariants over all operation sequences, refinement lemmas towards the GHOST specification) plus a differential run of generated operation sequences on the real Go code, the model and the independent GHOST oracle",
-        level_note="trusted: Lean kernel, hand model tied by correspondence (every API result compared on generated histories), GHOST oracle in Spec.lean; head_eq_ghost is proved for all admissible histories including finalizations and pruning (the specification prunes to the finalized subtree); Old.head_eq_ghost_false keeps the witness against the model of the code before the OnPrune rewrite; histories with malformed insertions are covered by the structure invariant only while the finalized checkpoint stays",
+        level_note="trusted: Lean kernel, hand model tied by correspondence (every API result compared on generated histories), GHOST oracle in Spec.lean; head_eq_ghost is proved for all admissible histories including finalizations and pruning (the specification prunes to the finalized subtree); Old.head_eq_ghost_false keeps the witness against the model of the code before the OnPrune rewrite; histories with malformed insertions (outside the refinement's domain) are covered by the weak structure invariant WF0 and no_panic for ALL histories, pruning included, and by the full structure invariant WF while the finalized checkpoint stays",
         technique="Lean 4 proof over hand model + Go/Lean/oracle differential correspondence",
         design_ref="DESIGN.md 5/C09", engine="lean"),
 )}
